@@ -413,6 +413,11 @@ def learn(np, deml, case, X, y, data_range):
     cap = io.StringIO()
     with contextlib.redirect_stdout(cap):
         cl = deml.Classification(ds, **kw)
+        Ld = cl.get_learning_data()
+        if Ld.is_empty() or set(int(v) for v in Ld[1]) != set(range(int(case["k"]))):
+            # precondition (labels contiguous 0..k-1 and every class present in the learning part, DESIGN section 3 item 8)
+            # not met, e.g. a narrower user range removed a whole class: the arg-max index is no class label then
+            return None, cap.getvalue()
         if case["mode"] == "std":
             cl.perform_classification(masslumping=bool(case["masslumping"]), lambd=float(case["lambd"]),
                                       minimum_level=case["lmin"], maximum_level=case["lmax"],
@@ -440,6 +445,9 @@ def run(case):
             "split=1.0" if case["split"] >= 1.0 else "split<1")
 
     cl, learn_text = learn(np, deml, case, X, y, (rlo.copy(), rhi.copy()) if user_range else None)
+    if cl is None:
+        out.cls("skip:class-missing-in-learning")
+        return out
     combis, des = cl.get_density_estimation_results()
 
     # ---- the scaling fixed at learning time --------------------------------------------------------------------
